@@ -1,6 +1,7 @@
 import TrionModel.Model.Lex
 import TrionModel.Model.Parse
 import TrionModel.Model.Simp
+import TrionModel.Model.SimpE
 import TrionModel.Model.Front
 import TrionModel.Model.Seg
 import TrionModel.Model.Codec
@@ -20,7 +21,7 @@ Mirrors, branch by branch,
 * `src/bin/assembler.rs` as far as it drives the context: `assemble`, `close_segment`, `finalize`.
 
 Composition. Text → tokens is `Lex.tokens`, tokens → statements `Parse.all`, expression evaluation
-`Simp.evaluateT` (= `evaluate` plus the tree it leaves behind), operand conversion `Front.assemble`, bytes of an
+`Simp.evaluateE` (= `evaluate` plus the tree it leaves behind on every outcome), operand conversion `Front.assemble`, bytes of an
 instruction `Codec.encodeInto 4` (through the parameter `enc`, see `encoder`), the output regions `Seg`
 (`Seg.State`, `Seg.closeSegment`, `Seg.step` with `select/append/place/rewrite`; `.align` is an `append` of the
 padding computed from the unsaturated cursor, as the code is after fix 9bfedb8) on top of `Map`.
@@ -35,9 +36,8 @@ Abstractions (each is the removal of something no code path can observe):
   for paths without `.` components; `.dfile`'s 1024-byte chunk loop after the `has_remaining(len)` check is one
   append; `metadata`/`read` failures of an opened file are outside the model (`IncludeError::FileRead`).
 * `evaluate` works on `&mut Argument`; after `Err(BadType | Overflow)` a `.du*` / instruction statement keeps the
-  partly simplified tree and re-evaluates it in its task. The model re-evaluates the tree as it was *before*
-  the failing call (`Simp.evaluateT` does not return the tree on these errors); the correspondence run checks
-  that the retry reports the same diagnostic.
+  partly evaluated tree and re-evaluates it in its task: `Simp.evaluateE` (Model/SimpE.lean) returns the tree as
+  every outcome leaves it, following the order of the in-place mutations.
 * include depth is bounded by `fuel` (cyclic includes, known finding K2, end in `Result.fuel`); the two task
   loops carry a round counter whose exhaustion is the separate outcome `.loop` (never produced: after one
   round no local task is left).
@@ -364,13 +364,13 @@ def evalTable (env : Env) (st : St) : Out Table :=
 
 /-- `evaluate(&mut a, ctx)` -/
 def evalIn (t : Table) (a : Arg) : Out Ev :=
-  match Simp.evaluateT (fun n => t.get n) Front.isRegister a with
+  match Simp.evaluateE (fun n => t.get n) Front.isRegister a with
   | .ok ev a' =>
     match ev.cause with
     | none => .ok (.complete a')
     | some c => .ok (.deferred c a')
   | .nosuch n a' => .ok (.noSuch n a')
-  | .err e => .ok (.err (evalE e) a)
+  | .err e a' => .ok (.err (evalE e) a')
   | .panic => .stop .panic
 
 def evalArg (env : Env) (st : St) (a : Arg) : Out Ev :=
